@@ -4,10 +4,12 @@
 //   Decode::decode   Ok(v) only by consuming exactly the bytes wire(v)  [== enc(v)]        (D: unique encoding)
 // (D) is the half of C15 the round-trip tests cannot reach: it starts from arbitrary bytes that decode.
 // Real code: Encode/Decode impls of crates/radicle-node/src/wire.rs, wire/message.rs; serialize / deserialize.
+#![feature(allocator_api)]
 use vstd::prelude::*;
 use std::marker::PhantomData;
 use std::ops::Deref;
 //@include _prelude.rs
+//@rlimit 150
 
 verus! {
 //@include _panic.rs
@@ -29,6 +31,8 @@ pub mod mem {
     pub fn size_of<T: VxSized>() -> (r: usize) ensures r == T::sz() { core::mem::size_of::<T>() }
 }
 pub struct NetworkEndian;
+/// stand-in for io::Error::new(kind, msg) (generic over Into<Box<dyn Error>>, outside Verus)
+#[verifier::external_body] pub fn vx_io_error_new(k: std::io::ErrorKind) -> (e: std::io::Error) ensures io_kind(e) == k { unimplemented!() }
 /// big-endian byte strings of the fixed-width integers (from the statement's wire format: network byte order)
 pub open spec fn be_u8(x: u8) -> Seq<u8> { seq![x] }
 pub open spec fn be_u16(x: u16) -> Seq<u8> { seq![(x / 256) as u8, (x % 256) as u8] }
@@ -147,6 +151,162 @@ pub mod vx_lem {
 /// ASSUMED (alloc): the capacity recorded by a Vec (std guarantees `with_capacity(n).capacity() >= n`; RawVec records exactly n
 /// for non-zero-sized element types, which every wire item type is)
 pub uninterp spec fn vec_cap<T>(v: Vec<T>) -> usize;
+
+pub mod bounded_env { pub use vstd::prelude::*; pub use crate::vec_cap; pub use std::ops; }
+//@extract crates/radicle-node/src/bounded.rs
+//@  inmod bounded
+//@    use bounded_env::*
+//@    item enum Error
+//@      derive Debug
+//@    item struct BoundedVec
+//@      derive Clone, PartialEq, Eq
+//@    impl <T, const N: usize> BoundedVec<T, N>
+//@      fn with_capacity
+//@        attr #[verifier::external_body] // Vec::with_capacity: the capacity actually recorded is not in vstd's Vec model
+//@        ret r
+//@        ensures
+//@          (r is Ok) == (capacity <= N)
+//@          # ASSUMED (alloc), see `vec_cap`
+//@          r is Ok ==> r->Ok_0.v@.len() == 0 && vec_cap(r->Ok_0.v) == capacity
+//@      fn max
+//@        ret r
+//@        ensures
+//@          r == N
+//@      fn as_slice
+//@        ret r
+//@        ensures
+//@          r@ == self.v@
+//@      fn capacity
+//@        attr #[verifier::external_body]
+//@        ret r
+//@        ensures
+//@          r == vec_cap(self.v)
+//@      fn push
+//@        ret r
+//@        requires
+//@          # `actual: N + 1` in the error value
+//@          old(self).v@.len() >= N ==> N < usize::MAX
+//@        ensures
+//@          old(self).v@.len() < N ==> r is Ok && final(self).v@ == old(self).v@.push(item)
+//@          old(self).v@.len() >= N ==> r is Err && final(self).v@ == old(self).v@
+//@    impl <T, const N: usize> ops::Deref for BoundedVec<T, N>
+//@      fn deref
+//@        ret r
+//@        ensures
+//@          r@ == self.v@
+//@end
+pub use bounded::BoundedVec;
+
+// ---- service/message.rs, filter.rs pieces ------------------------------------------------------------------------
+pub mod filter {
+    use vstd::prelude::*;
+    pub const FILTER_SIZE_S: usize = 1024;
+    pub const FILTER_SIZE_M: usize = 4096;
+    pub const FILTER_SIZE_L: usize = 16384;
+    pub const FILTER_SIZES: [usize; 3] = [FILTER_SIZE_S, FILTER_SIZE_M, FILTER_SIZE_L];
+    pub const FILTER_HASHES: usize = 7;
+    /// stand-in for bloomy::BloomFilter (external crate): the filter IS its byte array
+    pub struct BloomFilter { pub bytes: Vec<u8> }
+    impl BloomFilter {
+        /// ASSUMED (bloomy): as_bytes returns the bytes the filter was built from
+        pub fn as_bytes(&self) -> (r: &[u8]) ensures r@ == self.bytes@ { self.bytes.as_slice() }
+        /// ASSUMED (bloomy + the constants test in filter.rs): a filter of one of the three sizes uses FILTER_HASHES hashes
+        #[verifier::external_body] pub fn hashes(&self) -> (r: usize) ensures r == FILTER_HASHES { unimplemented!() }
+    }
+    impl From<Vec<u8>> for BloomFilter { fn from(b: Vec<u8>) -> (r: BloomFilter) ensures r.bytes == b { BloomFilter { bytes: b } } }
+    impl vstd::std_specs::convert::FromSpecImpl<Vec<u8>> for BloomFilter { open spec fn obeys_from_spec() -> bool { true } open spec fn from_spec(b: Vec<u8>) -> BloomFilter { BloomFilter { bytes: b } } }
+    pub struct Filter(pub BloomFilter);
+    impl std::ops::Deref for Filter { type Target = BloomFilter; fn deref(&self) -> (r: &BloomFilter) ensures *r == self.0 { &self.0 } }
+    impl From<BloomFilter> for Filter { fn from(b: BloomFilter) -> (r: Filter) ensures r == Filter(b) { Filter(b) } }
+    impl vstd::std_specs::convert::FromSpecImpl<BloomFilter> for Filter { open spec fn obeys_from_spec() -> bool { true } open spec fn from_spec(b: BloomFilter) -> Filter { Filter(b) } }
+    /// stand-in for `FILTER_SIZES.contains(&size)` (slice::contains on a const array)
+    pub fn vx_is_filter_size(size: usize) -> (r: bool) ensures r == (size == 1024 || size == 4096 || size == 16384) { size == 1024 || size == 4096 || size == 16384 }
+}
+pub use filter::Filter;
+pub mod wire { pub use crate::{Encode, Decode, Error, Size}; }
+pub mod crypto { pub use crate::Signature; }
+pub use crate::git::Oid;
+/// opaque stand-in: the node announcement codec (strings, aliases, addresses, optional trailing user agent) is NOT
+/// under contract in this unit; ASSUMED to satisfy the Encode/Decode contracts with `node_ann_bytes` as its wire form.
+pub struct NodeAnnouncement { pub opaque: u64 }
+pub uninterp spec fn node_ann_bytes(a: NodeAnnouncement) -> Seq<u8>;
+impl Encode for NodeAnnouncement {
+    open spec fn enc(&self) -> Seq<u8> { node_ann_bytes(*self) }
+    #[verifier::external_body]
+    fn encode<W: io::Write + ?Sized>(&self, writer: &mut W) -> Result<usize, io::Error> { unimplemented!() }
+}
+impl Decode for NodeAnnouncement {
+    open spec fn wire(v: Self) -> Seq<u8> { node_ann_bytes(v) }
+    #[verifier::external_body]
+    fn decode<R: io::Read + ?Sized>(reader: &mut R) -> Result<Self, Error> { unimplemented!() }
+}
+//@extract crates/radicle-node/src/service/message.rs
+//@  item const REF_REMOTE_LIMIT
+//@  item const INVENTORY_LIMIT
+//@  item struct Subscribe
+//@    derive
+//@  item struct RefsAnnouncement
+//@    derive
+//@  item struct InventoryAnnouncement
+//@    derive
+//@  item enum Info
+//@    derive
+//@  item enum AnnouncementMessage
+//@    derive
+//@  impl From<NodeAnnouncement> for AnnouncementMessage
+//@    fn from
+//@      ret r
+//@      ensures
+//@        r == AnnouncementMessage::Node(ann)
+//@  impl From<InventoryAnnouncement> for AnnouncementMessage
+//@    fn from
+//@      ret r
+//@      ensures
+//@        r == AnnouncementMessage::Inventory(ann)
+//@  impl From<RefsAnnouncement> for AnnouncementMessage
+//@    fn from
+//@      ret r
+//@      ensures
+//@        r == AnnouncementMessage::Refs(ann)
+//@  item struct Announcement
+//@    derive
+//@  item enum Message
+//@    derive
+//@  item struct Ping
+//@    derive
+//@  impl From<Announcement> for Message
+//@    fn from
+//@      ret r
+//@      ensures
+//@        r == Message::Announcement(ann)
+//@  item struct ZeroBytes
+//@    derive Clone, Debug, PartialEq, Eq
+//@  impl ZeroBytes
+//@    fn new
+//@      ret r
+//@      ensures
+//@        r.0 == size
+//@    fn len
+//@      ret r
+//@      ensures
+//@        r == self.0
+//@      body_sub self\.0\.into\(\) => self.0 as usize
+//@end
+impl vstd::std_specs::convert::FromSpecImpl<NodeAnnouncement> for AnnouncementMessage { open spec fn obeys_from_spec() -> bool { true } open spec fn from_spec(a: NodeAnnouncement) -> AnnouncementMessage { AnnouncementMessage::Node(a) } }
+impl vstd::std_specs::convert::FromSpecImpl<InventoryAnnouncement> for AnnouncementMessage { open spec fn obeys_from_spec() -> bool { true } open spec fn from_spec(a: InventoryAnnouncement) -> AnnouncementMessage { AnnouncementMessage::Inventory(a) } }
+impl vstd::std_specs::convert::FromSpecImpl<RefsAnnouncement> for AnnouncementMessage { open spec fn obeys_from_spec() -> bool { true } open spec fn from_spec(a: RefsAnnouncement) -> AnnouncementMessage { AnnouncementMessage::Refs(a) } }
+impl vstd::std_specs::convert::FromSpecImpl<Announcement> for Message { open spec fn obeys_from_spec() -> bool { true } open spec fn from_spec(a: Announcement) -> Message { Message::Announcement(a) } }
+/// ASSUMED (std): Vec<u8> as io::Write appends and never fails
+impl<A: std::alloc::Allocator> WriteSpecImpl for Vec<u8, A> { open spec fn written(&self) -> Seq<u8> { self@ } }
+/// "encoding `data` into a Vec succeeds": for Message this is exactly `enc().len() <= Size::MAX` (Message::encode), see lemma_message_fits
+pub uninterp spec fn vx_encodes_ok<T: Encode + ?Sized>(data: &T) -> bool;
+/// stand-in for `data.encode(&mut buffer).unwrap()`: the call itself is the trait method under contract; the unwrap is
+/// justified by the precondition (ASSUMED: Vec's Write never fails, so encode fails only where it says so itself)
+#[verifier::external_body]
+pub fn vx_encode_unwrap<T: Encode + ?Sized>(data: &T, buffer: &mut Vec<u8>) -> (n: usize)
+    requires vx_encodes_ok(data)
+    ensures final(buffer)@ =~= old(buffer)@ + data.enc(), n == data.enc().len()
+{ data.encode(buffer).unwrap() }
 pub struct FromUtf8Error;
 pub mod fmt { pub struct Error; }
 pub mod node { pub struct AliasError; }
@@ -175,6 +335,23 @@ pub mod tor { pub struct OnionAddrDecodeError; }
 //@      ret r
 //@      ensures
 //@        r is Ok ==> (*old(reader)).rem() =~= Self::wire(r->Ok_0) + (*final(reader)).rem() //[C15]
+//@  fn serialize
+//@    ret r
+//@    requires
+//@      # documented: panics if the object does not fit a frame; "every message the node can construct encodes within the
+//@      # 64 KiB limit" is lemma_message_fits below
+//@      vx_encodes_ok(data)
+//@    ensures
+//@      r@ == data.enc() //[C15]
+//@    body_sub data\.encode\(&mut buffer\)\.unwrap\(\) => vx_encode_unwrap(data, &mut buffer)
+//@  fn deserialize
+//@    desugar_try
+//@    ret r
+//@    head
+//@      proof { std_from_refl::<Error>(); }
+//@    ensures
+//@      # the whole input is the one encoding of the value
+//@      r is Ok ==> data@ =~= T::wire(r->Ok_0) //[C15]
 //@  impl Encode for u8
 //@    add
 //@      open spec fn enc(&self) -> Seq<u8> { be_u8(*self) }
@@ -334,6 +511,237 @@ pub mod tor { pub struct OnionAddrDecodeError; }
 //@      body_sub \.map_err\(Error::InvalidTimestamp\) => .map_err(|e| -> (o: Error) { Error::InvalidTimestamp(e) })
 //@      head
 //@        proof { std_from_refl::<Error>(); }
+//@end
+
+//@extract crates/radicle-node/src/wire.rs
+//@  impl <T, const N: usize> Encode for BoundedVec<T, N> where T: Encode,
+//@    add
+//@      open spec fn enc(&self) -> Seq<u8> { be_u16(self.v@.len() as u16) + flat_enc(self.v@) }
+//@    fn encode
+//@  impl <T, const N: usize> Decode for BoundedVec<T, N> where T: Decode,
+//@    add
+//@      open spec fn wire(v: Self) -> Seq<u8> { be_u16(v.v@.len() as u16) + flat_wire(v.v@) }
+//@    fn decode
+//@      attr #[verifier::exec_allows_no_decreases_clause]
+//@      desugar_try
+//@      body_sub for _ in 0\.\.items\.capacity\(\) => for _i in vx_r: 0..items.capacity()
+//@      body_sub \.map_err\(\|_vx\d+\| Error::InvalidSize \{\s*expected: Self::max\(\),\s*actual: len,\s*\}\) => .map_err(|_e| -> (o: Error) { Error::InvalidSize { expected: Self::max(), actual: len } })
+//@      head
+//@        proof { std_from_refl::<Error>(); }
+//@        let ghost vx_len = arbitrary::<u16>();
+//@      loop 1
+//@        invariant
+//@          items.v@.len() == _i && _i <= len && vx_r.iter.end == len && len <= N && len <= 65535
+//@          (*old(reader)).rem() =~= be_u16(len as u16) + flat_wire(items.v@) + (*reader).rem()
+//@      hint 1 items\.push\(item\)\.ok\(\);
+//@        vx_lem::lemma_flat_wire_push(items.v@, item);
+//@  impl Encode for filter::Filter
+//@    add
+//@      open spec fn enc(&self) -> Seq<u8> { be_u16(self.0.bytes@.len() as u16) + self.0.bytes@ }
+//@    fn encode
+//@      desugar_try
+//@      head
+//@        proof { std_from_refl::<io::Error>(); lemma_flat_bytes(self.0.bytes@); }
+//@  impl Decode for filter::Filter
+//@    add
+//@      open spec fn wire(v: Self) -> Seq<u8> { be_u16(v.0.bytes@.len() as u16) + v.0.bytes@ }
+//@    fn decode
+//@      desugar_try
+//@      body_sub !filter::FILTER_SIZES\.contains\(&size\) => !filter::vx_is_filter_size(size)
+//@      body_sub reader\.read_exact\(&mut bytes\[\.\.\]\) => reader.read_exact(bytes.as_mut_slice())
+//@      head
+//@        proof { std_from_refl::<Error>(); }
+//@end
+
+/// From the statement / wire format: type id (u16), then the fields in declaration order of the encoder.
+pub open spec fn ann_msg_bytes(m: AnnouncementMessage) -> Seq<u8> {
+    match m { AnnouncementMessage::Node(a) => a.enc(), AnnouncementMessage::Inventory(a) => a.enc(), AnnouncementMessage::Refs(a) => a.enc() }
+}
+pub open spec fn msg_type(m: Message) -> u16 {
+    match m {
+        Message::Subscribe(_) => 8,
+        Message::Announcement(a) => match a.message { AnnouncementMessage::Node(_) => 2, AnnouncementMessage::Inventory(_) => 4, AnnouncementMessage::Refs(_) => 6 },
+        Message::Info(_) => 14, Message::Ping(_) => 10, Message::Pong { .. } => 12,
+    }
+}
+pub open spec fn msg_bytes(m: Message) -> Seq<u8> {
+    be_u16(msg_type(m)) + (match m {
+        Message::Subscribe(s) => s.filter.enc() + s.since.enc() + s.until.enc(),
+        Message::Announcement(a) => a.node.enc() + a.signature.enc() + ann_msg_bytes(a.message),
+        Message::Info(i) => i.enc(),
+        Message::Ping(p) => be_u16(p.ponglen) + p.zeroes.enc(),
+        Message::Pong { zeroes } => zeroes.enc(),
+    })
+}
+/// the same format, phrased over the decoders' `wire` functions (what `Message::decode` is checked against)
+pub open spec fn msg_wire(m: Message) -> Seq<u8> {
+    be_u16(msg_type(m)) + (match m {
+        Message::Subscribe(s) => Filter::wire(s.filter) + Timestamp::wire(s.since) + Timestamp::wire(s.until),
+        Message::Announcement(a) => PublicKey::wire(a.node) + Signature::wire(a.signature) + (match a.message {
+            AnnouncementMessage::Node(x) => NodeAnnouncement::wire(x), AnnouncementMessage::Inventory(x) => InventoryAnnouncement::wire(x), AnnouncementMessage::Refs(x) => RefsAnnouncement::wire(x) }),
+        Message::Info(i) => Info::wire(i),
+        Message::Ping(p) => be_u16(p.ponglen) + ZeroBytes::wire(p.zeroes),
+        Message::Pong { zeroes } => ZeroBytes::wire(zeroes),
+    })
+}
+impl vstd::std_specs::convert::TryFromSpecImpl<u16> for MessageType {
+    open spec fn obeys_try_from_spec() -> bool { true }
+    open spec fn try_from_spec(other: u16) -> Result<MessageType, u16> {
+        match other { 2u16 => Ok::<MessageType, u16>(MessageType::NodeAnnouncement), 4u16 => Ok(MessageType::InventoryAnnouncement), 6u16 => Ok(MessageType::RefsAnnouncement), 8u16 => Ok(MessageType::Subscribe), 10u16 => Ok(MessageType::Ping), 12u16 => Ok(MessageType::Pong), 14u16 => Ok(MessageType::Info), _ => Err(other) }
+    }
+}
+impl vstd::std_specs::convert::TryFromSpecImpl<u16> for InfoType {
+    // (the impl's own `ensures` carries the specification; vstd's generic clause is switched off for this type)
+    open spec fn obeys_try_from_spec() -> bool { false }
+    open spec fn try_from_spec(other: u16) -> Result<InfoType, u16> { arbitrary() }
+}
+/// per type: the bytes a value decodes from are the bytes it encodes to
+pub trait WireLaw: Encode + Decode + Sized { proof fn law(v: Self) ensures Self::wire(v) == v.enc(); }
+impl WireLaw for RefsAt { proof fn law(v: Self) {} }
+impl WireLaw for RepoId { proof fn law(v: Self) {} }
+pub proof fn lemma_flat_eq<T: WireLaw>(s: Seq<T>) ensures flat_wire(s) == flat_enc(s) decreases s.len()
+{ if s.len() > 0 { lemma_flat_eq::<T>(s.drop_last()); T::law(s.last()); } }
+/// C15, second sentence: any bytes that decode to `m` are exactly the bytes `m` encodes to
+pub proof fn lemma_message_canonical(m: Message) ensures Message::wire(m) == m.enc()
+{
+    match m {
+        Message::Announcement(a) => match a.message {
+            AnnouncementMessage::Inventory(x) => { lemma_flat_eq::<RepoId>(x.inventory.v@); }
+            AnnouncementMessage::Refs(x) => { lemma_flat_eq::<RefsAt>(x.refs.v@); }
+            _ => {}
+        },
+        _ => {}
+    }
+}
+//@extract crates/radicle-node/src/wire/message.rs
+//@  item enum MessageType
+//@    derive Debug, Clone, Copy, PartialEq, Eq
+//@  impl From<MessageType> for u16
+//@    fn from
+//@      attr #[verifier::external_body] // `enum as u16` with explicit discriminants: ASSUMED to yield the declared discriminant
+//@      ret r
+//@      ensures
+//@        r == (match other { MessageType::NodeAnnouncement => 2u16, MessageType::InventoryAnnouncement => 4u16, MessageType::RefsAnnouncement => 6u16, MessageType::Subscribe => 8u16, MessageType::Ping => 10u16, MessageType::Pong => 12u16, MessageType::Info => 14u16 })
+//@  impl TryFrom<u16> for MessageType
+//@    fn try_from
+//@      ret r
+//@      ensures
+//@        r == (match other { 2u16 => Ok::<MessageType, u16>(MessageType::NodeAnnouncement), 4u16 => Ok(MessageType::InventoryAnnouncement), 6u16 => Ok(MessageType::RefsAnnouncement), 8u16 => Ok(MessageType::Subscribe), 10u16 => Ok(MessageType::Ping), 12u16 => Ok(MessageType::Pong), 14u16 => Ok(MessageType::Info), _ => Err(other) })
+//@  impl Message
+//@    drop MAX_SIZE
+//@    fn type_id
+//@      ret r
+//@      ensures
+//@        r == msg_type(*self)
+//@  impl wire::Encode for AnnouncementMessage
+//@    add
+//@      open spec fn enc(&self) -> Seq<u8> { ann_msg_bytes(*self) }
+//@    fn encode
+//@  impl wire::Encode for RefsAnnouncement
+//@    add
+//@      open spec fn enc(&self) -> Seq<u8> { self.rid.enc() + self.refs.enc() + self.timestamp.enc() }
+//@    fn encode
+//@      desugar_try
+//@      head
+//@        proof { std_from_refl::<io::Error>(); }
+//@  impl wire::Decode for RefsAnnouncement
+//@    add
+//@      open spec fn wire(v: Self) -> Seq<u8> { RepoId::wire(v.rid) + BoundedVec::<RefsAt, REF_REMOTE_LIMIT>::wire(v.refs) + Timestamp::wire(v.timestamp) }
+//@    fn decode
+//@      desugar_try
+//@      head
+//@        proof { std_from_refl::<wire::Error>(); }
+//@  impl wire::Encode for InventoryAnnouncement
+//@    add
+//@      open spec fn enc(&self) -> Seq<u8> { self.inventory.enc() + self.timestamp.enc() }
+//@    fn encode
+//@      desugar_try
+//@      head
+//@        proof { std_from_refl::<io::Error>(); }
+//@  impl wire::Decode for InventoryAnnouncement
+//@    add
+//@      open spec fn wire(v: Self) -> Seq<u8> { BoundedVec::<RepoId, INVENTORY_LIMIT>::wire(v.inventory) + Timestamp::wire(v.timestamp) }
+//@    fn decode
+//@      desugar_try
+//@      head
+//@        proof { std_from_refl::<wire::Error>(); }
+//@  item enum InfoType
+//@    derive Debug, Clone, Copy, PartialEq, Eq
+//@  impl From<InfoType> for u16
+//@    fn from
+//@      attr #[verifier::external_body] // `enum as u16`: ASSUMED to yield the declared discriminant
+//@      ret r
+//@      ensures
+//@        r == 1
+//@  impl TryFrom<u16> for InfoType
+//@    fn try_from
+//@      attr #[verifier::external_body] // 4-line match; Verus 0.2026.09.13 fails vstd's generic TryFrom clause here for no reason I could isolate (same shape verifies for MessageType and in isolation): contract ASSUMED
+//@      ret r
+//@      ensures
+//@        r == (if other == 1 { Ok::<InfoType, u16>(InfoType::RefsAlreadySynced) } else { Err(other) })
+//@  impl From<&Info> for InfoType
+//@    fn from
+//@  impl wire::Encode for Info
+//@    add
+//@      open spec fn enc(&self) -> Seq<u8> { match self { Info::RefsAlreadySynced { rid, at } => be_u16(1) + rid.enc() + at.enc() } }
+//@    fn encode
+//@      desugar_try
+//@      head
+//@        proof { std_from_refl::<io::Error>(); }
+//@  impl wire::Decode for Info
+//@    add
+//@      open spec fn wire(v: Self) -> Seq<u8> { match v { Info::RefsAlreadySynced { rid, at } => be_u16(1) + RepoId::wire(rid) + git::Oid::wire(at) } }
+//@    fn decode
+//@      desugar_try
+//@      head
+//@        proof { std_from_refl::<wire::Error>(); }
+//@  impl wire::Encode for Message
+//@    add
+//@      open spec fn enc(&self) -> Seq<u8> { msg_bytes(*self) }
+//@    fn encode
+//@      desugar_try
+//@      body_sub (?s)io::Error::new\(\s*io::ErrorKind::InvalidData,\s*"Message exceeds maximum size",\s*\) => vx_io_error_new(io::ErrorKind::InvalidData)
+//@      head
+//@        proof { std_from_refl::<io::Error>(); }
+//@      ret r
+//@      ensures
+//@        # "encodes within the 64 KiB frame limit": whatever encode accepts is at most Size::MAX bytes
+//@        r is Ok ==> r->Ok_0 <= 65535 //[C15]
+//@  impl wire::Decode for Message
+//@    add
+//@      open spec fn wire(v: Self) -> Seq<u8> { msg_wire(v) }
+//@    fn decode
+//@      desugar_try
+//@      head
+//@        proof { std_from_refl::<wire::Error>(); }
+//@  impl wire::Encode for ZeroBytes
+//@    add
+//@      open spec fn enc(&self) -> Seq<u8> { be_u16(self.0) + Seq::new(self.0 as nat, |i: int| 0u8) }
+//@    fn encode
+//@      attr #[verifier::exec_allows_no_decreases_clause]
+//@      desugar_try
+//@      body_sub for _ in 0\.\.self\.len\(\) => for _i in 0..self.len()
+//@      head
+//@        proof { std_from_refl::<io::Error>(); }
+//@      loop 1
+//@        invariant
+//@          n == 2 + _i && _i <= self.0
+//@          (*writer).written() =~= (*old(writer)).written() + be_u16(self.0) + Seq::new(_i as nat, |i: int| 0u8)
+//@          (*writer).written().len() <= usize::MAX
+//@  impl wire::Decode for ZeroBytes
+//@    add
+//@      /// from the statement: whatever decodes re-encodes to the same bytes -- so the padding must be zeroes
+//@      open spec fn wire(v: Self) -> Seq<u8> { be_u16(v.0) + Seq::new(v.0 as nat, |i: int| 0u8) }
+//@    fn decode
+//@      attr #[verifier::exec_allows_no_decreases_clause]
+//@      desugar_try
+//@      body_sub for _ in 0\.\.zeroes => for _i in 0..zeroes
+//@      body_sub _ = u8::decode\(reader\)\? => let _b = u8::decode(reader)?
+//@      head
+//@        proof { std_from_refl::<wire::Error>(); }
+//@      loop 1
+//@        invariant
+//@          (*old(reader)).rem() =~= be_u16(zeroes) + Seq::new(_i as nat, |i: int| 0u8) + (*reader).rem()
 //@end
 
 /// a byte slice encodes as its length-prefixed bytes: flat_enc of bytes is the bytes themselves
